@@ -2,7 +2,7 @@
    Statements only; every proof is [exact <lemma>].  Open statements are listed at the end. *)
 From PV.Model Require Import Machine Mapping Views Pattern Exec ScanView.
 From PV.Spec Require Import PatSyntax PatSem.
-From PV.Proofs Require PatternProofs ExecProofs ViewsProofs PatSyntaxProofs PatSemProofs.
+From PV.Proofs Require PatternProofs ExecProofs ViewsProofs PatSyntaxProofs PatSemProofs PatSemFull PatScanFile PatTrim.
 Import ExecProofs.
 
 (* Parsing ANY byte string terminates (fuel = length + 1) with a pattern or an error whose position lies within the input. *)
@@ -150,10 +150,144 @@ Example C11_sem_nonvacuous :
   den_top sc a 0x1001 = None /\ run_exec sc (compile a) 0x1001 [0; 0; 0; 9] = Ok (false, [0x1001; 0; 0; 9]).
 Proof. exact PatSemProofs.sem_nonvacuous. Qed.
 
-(* OPEN: C11_exec_compile_den : forall a, wf a -> ~ range_skip_in_last_alternative_with_suffix a ->
-   forall scan c sigma, exec (compile a) scan c sigma = den a scan c sigma
-   - theorem 3 for braces and alternatives (3b). Proved for the fragment without them (C11_exec_compile_den_flat).
-   What is missing: [den] for ISub / IAlt (atomic groups, slot numbering per alternative, F34 class) and the simulation for
-   Push/Pop/Case/Break, whose invocations return the program counter (the fold [aden] of Proofs/PatSemProofs.v would have to
-   return the remaining atoms); on failure the save array keeps writes of failed alternatives, so the statement about the
-   save array must be the weaker one of DESIGN.md (slots written by the log hold the log's last value). *)
+(* ---------------------------------------------------------------------------------------------------------------------
+   Theorem 3b: compiler correctness of the pattern VM for the WHOLE documented syntax - brace sub-patterns after jumps
+   (the sub-pattern runs at the jump target and matching resumes at the byte after the jump operand) and parenthesised
+   alternatives (tried left to right), nested to any depth. [den_top] (Spec/PatSem.v) is the structural semantics with
+   ATOMIC groups; the one place where the implementation departs from it is the decidable known class F34,
+   [range_skip_in_last_alternative_with_suffix] (the last alternative of a group is compiled inline, so a range skip in it
+   retries against what follows the closing parenthesis). Outside the class: Scanner::exec on the compiled pattern returns
+   true exactly when [den_top] returns a log (verdict exact), and then the save array keeps its length and every slot the
+   log writes holds the value the log gives it last ([log_ok]; slots the successful path does not write are
+   unconstrained, because failed alternatives and failed skip candidates leave their writes behind).
+   [untrimmed]: the last compiled atom constrains something (the parser trims trailing skips/returns; C11_exec_comp_den
+   is the statement on the untrimmed compiler output, without that hypothesis). *)
+
+(* step 1: the fragment "flat + braces" (no alternatives at any depth; never in the class) *)
+Theorem C11_exec_compile_den_sub : forall sc a cursor save,
+  scan_wf sc -> noalt a = true -> wf a -> untrimmed a = true -> cursor < W32 ->
+  exists ok save', run_exec sc (compile a) cursor save = Ok (ok, save') /\
+    match den_top sc a cursor with
+    | Some lg => ok = true /\ log_ok lg save save'
+    | None => ok = false
+    end.
+Proof. exact PatSemFull.exec_compile_den_sub. Qed.
+Print Assumptions C11_exec_compile_den_sub.
+
+(* step 2: the whole syntax outside the known class *)
+Theorem C11_exec_compile_den : forall sc a cursor save,
+  scan_wf sc -> wf a -> range_skip_in_last_alternative_with_suffix a = false -> untrimmed a = true -> cursor < W32 ->
+  exists ok save', run_exec sc (compile a) cursor save = Ok (ok, save') /\
+    match den_top sc a cursor with
+    | Some lg => ok = true /\ log_ok lg save save'
+    | None => ok = false
+    end.
+Proof. exact PatSemFull.exec_compile_den. Qed.
+Print Assumptions C11_exec_compile_den.
+
+Theorem C11_exec_comp_den : forall sc a cursor save,
+  scan_wf sc -> wf a -> range_skip_in_last_alternative_with_suffix a = false -> cursor < W32 ->
+  exists ok save', run_exec sc (c_res (comp_seq a cinit)) cursor save = Ok (ok, save') /\
+    match den_top sc a cursor with
+    | Some lg => ok = true /\ log_ok lg save save'
+    | None => ok = false
+    end.
+Proof. exact PatSemFull.exec_comp_den. Qed.
+Print Assumptions C11_exec_comp_den.
+
+Theorem C11_compile_untrimmed : forall a, untrimmed a = true -> compile a = c_res (comp_seq a cinit).
+Proof. exact PatSemFull.compile_untrimmed. Qed.
+Print Assumptions C11_compile_untrimmed.
+
+(* a pattern without alternatives is never in the class *)
+Theorem C11_noalt_outside_class : forall a, noalt a = true -> range_skip_in_last_alternative_with_suffix a = false.
+Proof. exact PatSemFull.noalt_f34. Qed.
+Print Assumptions C11_noalt_outside_class.
+
+(* ... for Scanner::exec on a mapped view (PeView) *)
+Theorem C11_view_exec_compile_den : forall v a cursor save,
+  ViewsProofs.view_ok v -> v_file v = false -> v_len v < W32 -> (forall o, v_get v o < 256) ->
+  wf a -> range_skip_in_last_alternative_with_suffix a = false -> untrimmed a = true -> cursor < W32 ->
+  exists ok save', view_exec v (compile a) cursor save = Ok (ok, save') /\
+    match den_top (scan_of_view v) a cursor with
+    | Some lg => ok = true /\ log_ok lg save save'
+    | None => ok = false
+    end.
+Proof. exact PatSemFull.view_exec_compile_den. Qed.
+Print Assumptions C11_view_exec_compile_den.
+
+(* F34, the known class: ( 11 | 22 [0-4] 33 ) 44 on the bytes 22 33 33 44. The pattern is in the class, the structural
+   semantics rejects the layout (22 33 matches the second alternative on its own with no byte skipped, then 33 is not 44)
+   and Scanner::exec accepts it (the inline range skip is retried with one byte skipped against "33 ) 44"). With the two
+   alternatives swapped the pattern is outside the class and both reject. *)
+Theorem C11_F34_known_class_witness :
+  let a := [IAlt [IByte 0x11] [[IByte 0x22; IRange 0 4; IByte 0x33]]; IByte 0x44] in
+  let a' := [IAlt [IByte 0x22; IRange 0 4; IByte 0x33] [[IByte 0x11]]; IByte 0x44] in
+  let sc := PatSemProofs.list_scan [0x22; 0x33; 0x33; 0x44] 0x1000 in
+  wf a /\ untrimmed a = true /\ range_skip_in_last_alternative_with_suffix a = true /\
+  den_top sc a 0x1000 = None /\ run_exec sc (compile a) 0x1000 [0] = Ok (true, [0x1000]) /\
+  wf a' /\ range_skip_in_last_alternative_with_suffix a' = false /\
+  den_top sc a' 0x1000 = None /\ run_exec sc (compile a') 0x1000 [0] = Ok (false, [0x1000]).
+Proof. exact PatSemFull.F34_witness. Qed.
+Print Assumptions C11_F34_known_class_witness.
+
+(* e8 ${ ' ( 6a ? | 68 ' [1-3] c3 ) } 90: the jump lands on 68, the second alternative matches with two bytes skipped,
+   matching resumes after the operand on 90; captures: the target, the byte after 68 *)
+Example C11_sem_full_nonvacuous :
+  let a := [IByte 0xe8; ISub J4 [ISave; IAlt [IByte 0x6a; IWild 1] [[IByte 0x68; ISave; IRange 1 3; IByte 0xc3]]]; IByte 0x90] in
+  let sc := PatSemProofs.list_scan [0xe8; 0x02; 0; 0; 0; 0x90; 0xcc; 0x68; 0xaa; 0xbb; 0xc3] 0x1000 in
+  wf a /\ untrimmed a = true /\ range_skip_in_last_alternative_with_suffix a = false /\
+  den_top sc a 0x1000 = Some [(0, 0x1000); (1, 0x1007); (2, 0x1008)] /\
+  run_exec sc (compile a) 0x1000 [0; 0; 0; 9] = Ok (true, [0x1000; 0x1007; 0x1008; 9]) /\
+  den_top sc a 0x1001 = None /\ (exists s, run_exec sc (compile a) 0x1001 [0; 0; 0; 9] = Ok (false, s)).
+Proof. exact PatSemFull.sem_full_nonvacuous. Qed.
+
+(* ... and on a FILE view (PeFile) whose sections do not overlap in their virtual extents ([sections_disjoint], a decidable
+   condition on the section table: exec_many peeks into the slice of the first section containing the cursor, while the
+   byte match at cursor+i looks the section up again): scan_wf holds, so theorems 3a and 3b speak about Scanner::exec there *)
+Theorem C11_file_view_scan_wf : forall v, ViewsProofs.view_ok v -> v_file v = true -> v_len v < W32 -> (forall o, v_get v o < 256) ->
+  PatScanFile.sections_disjoint v = true -> scan_wf (scan_of_view v).
+Proof. exact PatScanFile.file_view_scan_wf. Qed.
+Print Assumptions C11_file_view_scan_wf.
+Theorem C11_file_view_exec_compile_den : forall v a cursor save,
+  ViewsProofs.view_ok v -> v_file v = true -> v_len v < W32 -> (forall o, v_get v o < 256) -> PatScanFile.sections_disjoint v = true ->
+  wf a -> range_skip_in_last_alternative_with_suffix a = false -> untrimmed a = true -> cursor < W32 ->
+  exists ok save', view_exec v (compile a) cursor save = Ok (ok, save') /\
+    match den_top (scan_of_view v) a cursor with
+    | Some lg => ok = true /\ log_ok lg save save'
+    | None => ok = false
+    end.
+Proof. exact PatScanFile.file_view_exec_compile_den. Qed.
+Print Assumptions C11_file_view_exec_compile_den.
+Theorem C11_file_view_exec_compile_den_flat : forall v a cursor save,
+  ViewsProofs.view_ok v -> v_file v = true -> v_len v < W32 -> (forall o, v_get v o < 256) -> PatScanFile.sections_disjoint v = true ->
+  flat a = true -> wf a -> ends_solid a = true -> cursor < W32 ->
+  exists ok save', view_exec v (compile a) cursor save = Ok (ok, save') /\
+    match den_top (scan_of_view v) a cursor with
+    | Some lg => ok = true /\ save' = apply_log lg save
+    | None => ok = false
+    end.
+Proof. exact PatScanFile.file_view_exec_compile_den_flat. Qed.
+Print Assumptions C11_file_view_exec_compile_den_flat.
+
+(* The parser trims a trailing Pop (a pattern that ends in a closing brace). Scanner::exec does not see the difference - the
+   invocation that would return at the Pop returns at the end of the pattern instead - so theorem 3b also holds for patterns
+   whose compiled form loses nothing but the returns of closing braces ([trims_only_braces], implied by [untrimmed]).
+   What remains excluded are patterns ending in a skip or a range skip (also inside a final brace): the parser drops those
+   atoms, while [den] requires a trailing range skip to be readable - there the pattern says less than it is written. *)
+Theorem C11_run_exec_trailing_pop : forall sc, ExecProofs.scan_ok sc -> forall pat cursor save,
+  run_exec sc (pat ++ [Pop]) cursor save = run_exec sc pat cursor save.
+Proof. exact PatTrim.run_exec_trail_pop. Qed.
+Print Assumptions C11_run_exec_trailing_pop.
+Theorem C11_exec_compile_den_braces : forall sc a cursor save,
+  scan_wf sc -> wf a -> range_skip_in_last_alternative_with_suffix a = false -> trims_only_braces a = true -> cursor < W32 ->
+  exists ok save', run_exec sc (compile a) cursor save = Ok (ok, save') /\
+    match den_top sc a cursor with
+    | Some lg => ok = true /\ log_ok lg save save'
+    | None => ok = false
+    end.
+Proof. exact PatTrim.exec_compile_den_braces. Qed.
+Print Assumptions C11_exec_compile_den_braces.
+Theorem C11_untrimmed_braces : forall a, untrimmed a = true -> trims_only_braces a = true.
+Proof. exact PatTrim.untrimmed_braces. Qed.
+Print Assumptions C11_untrimmed_braces.
